@@ -641,6 +641,9 @@ def c03(tier, seed):
     c.conform(binary, with_etys(scns, ["tk", "zst", "plain"]), "tlc-simulation")
     rnd = random_histories(rng, 30 if tier == "quick" else 300, 12, 40 if tier == "quick" else 120)
     c.conform(binary, with_etys(rnd, ["tk", "zst", "plain"]), "random-histories")
+    if tier != "quick":
+        c.asan_pass("random-histories")
+        c.asan_pass("tlc-simulation")
     return c.finish()
 
 
@@ -703,6 +706,8 @@ def c02(tier, seed):
                     scns.append(view_scn("C02", api, e, n, i))
     c.cov["exhaustive"] = True
     c.conform(binary, scns, "views", sub="views")
+    if tier != "quick":
+        c.asan_pass("views", sub="views")
     # by-value conversions to and from [T; N] and same-typed tuples keep every element at its position
     conv = []
     for n in range(0, 13):
@@ -742,6 +747,8 @@ def c10(tier, seed):
     c.cov["exhaustive"] = True
     c.cov["bounds"] = {"model": "N in {0,1,2,3,4,7,8}, L in 0..4N+3, chunk counts 0..3"}
     c.conform(binary, scns, "chunks", sub="views")
+    if tier != "quick":
+        c.asan_pass("chunks", sub="views")
     c.assumptions.append("the const-evaluator half of the quantifier is covered by C18's generated const items")
     return c.finish()
 
@@ -780,6 +787,8 @@ def c09(tier, seed):
     c.cov["exhaustive"] = True
     c.cov["bounds"] = {"model": "N in 0..8, every K <= N, every (N, M) with N+M <= 8, every index 0..N+1", "extra": "usize::MAX indices, lengths 9..12"}
     c.conform(binary, with_etys(scns, ["tk", "zst", "plain", "tk24", "p1"]), "owned")
+    if tier != "quick":
+        c.asan_pass("owned")
     rows = views_from_model(c, "MC_Views", lambda d: d["api"] in ("split_ref", "split_mut"))
     vs = []
     for d in rows:
@@ -791,6 +800,8 @@ def c09(tier, seed):
                 for e in ("unit", "u8", "b24"):
                     vs.append(view_scn("C09", api, e, n, n, k))
     c.conform(binary, vs, "split-by-ref", sub="views")
+    if tier != "quick":
+        c.asan_pass("split-by-ref", sub="views")
     c.assumptions.append("owned operations: element sizes 0 (tracked zero-sized), 1 (plain), 8 (tracked, plain) and 24 bytes (tracked); by-reference split: 0, 1, 8, 24; out-of-bounds reads whose result is discarded are visible only to the thorough tier's sanitizer build")
     return c.finish()
 
@@ -819,6 +830,8 @@ def c11(tier, seed):
         for e in (["unit", "u8", "u64"] if (tier == "quick" or big) else VIEW_ETYS):
             vs.append(view_scn("C11", d["api"], e, d["n"], d["n"] * d["m"], 0, d["m"]))
     c.conform(binary, vs, "by-ref", sub="views")
+    if tier != "quick":
+        c.asan_pass("by-ref", sub="views")
     owned = []
     for (a, b) in FLAT_PAIRS:
         if a * b not in ARR_LENS or (a, b) == (16, 64) and False:
